@@ -29,7 +29,7 @@ func c14NumCases(env *core.Env) int {
 	if env.Thorough() {
 		return n + 150000
 	}
-	return n + 12000
+	return n + 30000
 }
 
 var c14RefStrings = append([]string{"", "#", "#/definitions/Pet", "other.json", "HTTP://Example.COM:80/a//b.json#/x~1y", "file:///a/b.json#/definitions/%C3%A9",
